@@ -853,6 +853,8 @@ def run(chk):
                        "the gap threshold, errors at the bound) are excluded from the set comparison, never from the predicate's "
                        "admissibility / gap clauses"]
     chk.build()
+    if chk.model_available():
+        common.build_reported(chk, "C03", "proofs/CnEnumProofs.v", "props/C03_reported.v")
     q = chk.tier == "quick"
     n_solve, n_est = (160, 90) if q else (4000, 1500)
     cases = []
